@@ -50,6 +50,11 @@ structure Req where
                           -- (HTTP/1.1 chunked, HTTP/2 without content-length)
   firstRun : Bool         -- `globalContext.firstRun`
   usersExist : Bool       -- `globalContext.auth != nil && auth.authRequired()`
+  /-- every other request header (name, value), in order: `Origin`,
+  `Access-Control-Request-*`, `X-Forwarded-*`, `X-Requested-With`, `Upgrade`,
+  further `Authorization` values, cookies of other names, further
+  `agh_session` values, …  No wrapper reads them. -/
+  headers : List (Bytes × Bytes) := []
   deriving DecidableEq, Repr
 
 /-- Where a wrapper redirects to (the first argument of `http.Redirect`). -/
@@ -157,6 +162,25 @@ def optionalAuthThird (r : Req) : Option Resp :=
   if authenticated r then none
   else if r.path = pRoot ∨ r.path = pIndex then some (.redirect .login)
   else some .forbiddenAuth
+
+/-- What `optionalAuth` decides by itself, as a function of exactly the four
+things it looks at: `some resp` = it answers `resp` and the wrapped handler is
+not called; `none` = it calls the wrapped handler. -/
+def authDecision (path : Bytes) (cookie : Cookie) (basic : Basic) (usersExist : Bool) :
+    Option Resp :=
+  if path = pLoginHtml then
+    if usersExist && cookie == .valid then some (.redirect .dash) else none
+  else if isPublicResource path then none
+  else if usersExist then
+    let authed : Bool := match cookie with
+      | .none => basic == .right
+      | .valid => true
+      | .unknown => false
+      | .expired => false
+    if authed then none
+    else if path = pRoot ∨ path = pIndex then some (.redirect .login)
+    else some .forbiddenAuth
+  else none
 
 /-- `optionalAuth` (authhttp.go:288). -/
 def optionalAuthW (h : Handler) : Handler := fun r =>
